@@ -210,7 +210,9 @@ func runC04Pipeline(e *Env) {
 		// Ints[again]: the same pipeline value is subscribed once more while its source plays another
 		// input: the documented meaning applies to every subscription, whatever an earlier one saw
 		variant := c12Variant(&Scn{Sources: sc.Sources, Ints: map[string]int{"vary": sc.Int("again", 0)}})
-		if variant == nil || e.K.Capped() {
+		if variant == nil || e.K.Capped() || rec.Terminal() == 0 || !h.Ret() {
+			// only once the first subscription is completely over (an unterminated one - a source that
+			// stays silent below an operator that waits inside Subscribe - is still occupying the pipeline)
 			return
 		}
 		vsc := cloneScn(sc)
